@@ -234,3 +234,31 @@ Fixpoint count_ok (items : list val) : nat :=
   | Ok _ :: r => S (count_ok r)
   | _ :: r => count_ok r
   end.
+
+(* ---- (e) TileCreator._create_single_tiles / _create_meta_tiles -> _create_threaded (cache/tile.py):
+   `for new_tiles in async_pool.imap(create_func, tiles): result.extend(new_tiles)` in raise mode with
+   pool size concurrent_tile_creators (the sequential loop of the caller for one tile / one creator behaves like
+   imap's own sequential branches).  Creator k returns the list of its tiles: `Ok v` stands for [v], v < 0 for [].
+   An exception leaves the loop: nothing is returned. *)
+Definition create_threaded (pool_size : nat) (items : list val) (arrival : list nat) (split : nat) : list Z * option Z :=
+  match imap pool_size false items arrival split with
+  | (rs, None) => (nonblank rs, None)
+  | (_, Some e) => ([], Some e)
+  end.
+
+(* ---- (f) thread-start faults in _init_pool: `fail_at = Some k` = the (k+1)-th Thread.start() raises RuntimeError
+   ("can't start new thread").  _init_pool lets it propagate; it leaves map_each before any task is queued, so
+   nothing is yielded and the call ends at once.  No pool is created for a single item or pool size < 2. *)
+Definition E_START : Z := 9999%Z.
+Definition imap_start (pool_size : nat) (use_result_objects : bool) (items : list val) (arrival : list nat) (split : nat)
+           (fail_at : option nat) : list val * option Z :=
+  match items with
+  | [v] => single_call use_result_objects v
+  | _ =>
+    if Nat.ltb pool_size 2 then imap pool_size use_result_objects items arrival split
+    else match fail_at with
+         | Some k => if Nat.ltb k pool_size then ([], Some E_START)
+                     else imap pool_size use_result_objects items arrival split
+         | None => imap pool_size use_result_objects items arrival split
+         end
+  end.
